@@ -146,6 +146,8 @@ func startProc(self, ptsup, mode string, n int, root, ptlog, rep, out string, ms
 	if err != nil {
 		return nil, err
 	}
+	errb := &tailBuffer{max: 8 << 10}
+	cmd.Stderr = errb
 	if err := cmd.Start(); err != nil {
 		return nil, err
 	}
@@ -180,7 +182,7 @@ func startProc(self, ptsup, mode string, n int, root, ptlog, rep, out string, ms
 			}
 			f.exitErr = strings.TrimPrefix(exitLine, "EXIT ERR ")
 			if f.exitErr == "" || exitLine == "EXIT OK" {
-				f.exitErr = "process ended: " + werr.Error() + " " + exitLine
+				f.exitErr = "process ended: " + werr.Error() + " " + exitLine + " " + panicLine(errb.String())
 			}
 		} else if exitLine != "EXIT OK" {
 			f.exitCode = 1
@@ -227,6 +229,43 @@ func (f *follower) kill() {
 	case <-f.done:
 	case <-time.After(15 * time.Second):
 	}
+}
+
+// tailBuffer keeps the first max bytes written to it (a panic message comes first).
+type tailBuffer struct {
+	mu  sync.Mutex
+	b   []byte
+	max int
+}
+
+func (t *tailBuffer) Write(p []byte) (int, error) {
+	t.mu.Lock()
+	if room := t.max - len(t.b); room > 0 {
+		if len(p) < room {
+			room = len(p)
+		}
+		t.b = append(t.b, p[:room]...)
+	}
+	t.mu.Unlock()
+	return len(p), nil
+}
+
+func (t *tailBuffer) String() string {
+	t.mu.Lock()
+	defer t.mu.Unlock()
+	return string(t.b)
+}
+
+func panicLine(stderr string) string {
+	for _, l := range strings.Split(stderr, "\n") {
+		if strings.HasPrefix(l, "panic:") || strings.HasPrefix(l, "fatal error:") {
+			return l
+		}
+	}
+	if len(stderr) > 300 {
+		stderr = stderr[:300]
+	}
+	return oneLine(stderr)
 }
 
 type awaitStatus int
